@@ -241,6 +241,8 @@ pub fn run(ctx: &Ctx) -> Rep {
         }
     }
 
+    let all_orders5 = !ctx.smoke() && (ctx.thorough() || ctx.leg != "checked");
+    let perms5: Vec<[u8; 8]> = (0..drive::factorial(5)).map(|k| drive::nth_permutation(5, k)).collect();
     // ---- cards -> rank: all five-card hands -------------------------------------
     let us = if ctx.smoke() { 331 } else { 1 };
     let s5 = par_subsets::<5, X, _, _>(ctx, us, mk, |st, c, _| {
@@ -255,6 +257,15 @@ pub fn run(ctx: &Ctx) -> Rep {
         let h = Five::from(w);
         check_rank_of_cards(st, "Five::hand_rank", &p, h.hand_rank(), key, o);
         check_rank_of_cards(st, "Five::hand_rank_validated", &p, h.hand_rank_validated(), key, o);
+        // every slot order (the rank reported for a hand must describe its cards in whatever order they are held)
+        if all_orders5 {
+            for q in &perms5 {
+                let a = [c[q[0] as usize], c[q[1] as usize], c[q[2] as usize], c[q[3] as usize], c[q[4] as usize]];
+                let h = Five::from(words_of(&a));
+                check_rank_of_cards(st, "Five::hand_rank", &a, h.hand_rank(), key, o);
+                check_rank_of_cards(st, "Five::hand_rank_validated", &a, h.hand_rank_validated(), key, o);
+            }
+        }
         if st.rep.want_sample() && selected(c, seed, 0x6a, 400_009) {
             st.rep.sample(format!("{} -> {:?} ; oracle {} / {}", model::hand_name(&p), h.hand_rank(), Model::category_name_of_key(key), Model::class_name_of_key(key)));
         }
@@ -323,7 +334,7 @@ pub fn run(ctx: &Ctx) -> Rep {
         rep.exhaustive = Some(true);
     }
     rep.rule = format!(
-        "all 65,536 values through HandRank::from and its helpers (distinct = values), each also converted right after 83 related predecessors (thorough: after every value); all 2,598,960 five-card hands in a seeded slot order, \
+        "all 65,536 values through HandRank::from and its helpers (distinct = values), each also converted right after 83 related predecessors (thorough: after every value); all 2,598,960 five-card hands in a seeded slot order (and in all 120 slot orders in the fast leg / thorough), \
          a seeded 1-in-{} of the six-card and 1-in-{} of the seven-card hands through hand_rank()/hand_rank_validated(), names compared with the \
          rules-derived category/class of the cards",
         rate6, rate7
